@@ -535,3 +535,75 @@ def sp_dents_are(w, ex, node):
 
 
 SPEC_FUNCS['dents_are'] = sp_dents_are
+
+
+IFACEF = z3.Function('IFACE', IntS, IntS)
+EPADDRF = z3.Function('EPADDR', IntS, IntS)
+
+
+def sp_IFACE(w, ex, node):
+    (k,) = [ex.eval(a) for a in node.args]
+    return VInt(IFACEF(k.term))
+
+
+def sp_EPADDR(w, ex, node):
+    (k,) = [ex.eval(a) for a in node.args]
+    return VInt(EPADDRF(k.term))
+
+
+def sp_trunc(w, ex, node):
+    (x,) = [ex.eval(a) for a in node.args]
+    t = to_real(x)
+    return VInt(z3.If(t >= 0, z3.ToInt(t), -z3.ToInt(-t)))
+
+
+SPEC_FUNCS.update({'IFACE': sp_IFACE, 'EPADDR': sp_EPADDR, 'trunc': sp_trunc})
+
+
+PRIVKEYF = z3.Function('PRIVKEY_OF', Bytes, IntS)
+KEYNF = z3.Function('KEY_N', IntS, IntS)
+KEYEF = z3.Function('KEY_E', IntS, IntS)
+B64F = z3.Function('B64', Bytes, Bytes)
+
+
+def sp_PRIVKEY_OF(w, ex, node):
+    (d,) = [ex.eval(a) for a in node.args]
+    return VOpaque('PrivKey', PRIVKEYF(d.term))
+
+
+def sp_KEY_N(w, ex, node):
+    (k,) = [ex.eval(a) for a in node.args]
+    return VInt(KEYNF(k.term))
+
+
+def sp_KEY_E(w, ex, node):
+    (k,) = [ex.eval(a) for a in node.args]
+    return VInt(KEYEF(k.term))
+
+
+def sp_B64(w, ex, node):
+    (d,) = [ex.eval(a) for a in node.args]
+    return VBytes(B64F(d.term), False)
+
+
+SPEC_FUNCS.update({'PRIVKEY_OF': sp_PRIVKEY_OF, 'KEY_N': sp_KEY_N, 'KEY_E': sp_KEY_E, 'B64': sp_B64})
+
+
+def _inst_B64(app):
+    s = app.arg(0)
+    return [z3.Length(app) == 4 * ((z3.Length(s) + 2) / 3)]
+
+
+from pyvc import specfuns as _SF      # noqa: E402
+_SF.EXTRA_INSTANCES['B64'] = _inst_B64
+
+
+MODINVF = z3.Function('MODINV32', IntS, IntS)
+
+
+def sp_MODINV32(w, ex, node):
+    (e,) = [ex.eval(a) for a in node.args]
+    return VInt(MODINVF(to_int(e)))
+
+
+SPEC_FUNCS['MODINV32'] = sp_MODINV32
